@@ -368,6 +368,22 @@ def run_family(ctx, sut, monitors, fpm, rng, chain):
                             f"serialize_json(child) != serialize_json(flat): {str(json_c)[:300]} vs {str(json_f)[:300]}")
         except Exception as exc:  # pylint: disable=broad-except
             ctx.count("serialize_failed." + type(exc).__name__)
+        try:
+            # ... also when the child is serialized NEXT TO its parent, neither of them being the document's
+            # own class (both land in "definitions")
+            holder = sut.Element(properties={"p": sut.Property(classes[level - 1]), "c": sut.Property(child),
+                                             "cs": sut.Property(sut.Array(child))})
+            held = normalise_json(sut.serialize_json(holder))
+            json_f = normalise_json(sut.serialize_json(flat))
+            ctx.count("json.child_next_to_parent_compared")
+            for where, got in (("c", held["properties"]["c"]), ("cs", held["properties"]["cs"].get("items"))):
+                if not refmodel.json_eq(got, json_f):
+                    ctx.witness("child_json_differs_from_flat", {**case, "level": level, "next_to_parent": where},
+                                f"child serialized next to its parent differs from the flat class: {str(got)[:250]} "
+                                f"vs {str(json_f)[:250]}")
+                    break
+        except Exception as exc:  # pylint: disable=broad-except
+            ctx.count("serialize_failed." + type(exc).__name__)
         if not history:
             # (executing `class Child(Parent)` derives from the parent AS IT IS NOW: comparable with the child
             # only when no ancestor was reconfigured after the child had been defined)
